@@ -599,10 +599,11 @@ type WorldSnap struct {
 	smsTick                                  map[string]int
 	smsSeen                                  map[string]string
 	t0                                       time.Time
+	at                                       time.Time // when the snapshot was taken
 }
 
 func (w *World) Snapshot() WorldSnap {
-	s := WorldSnap{in: w.In.Snapshot(), now: w.Now, t0: w.T0, ct: len(w.ct), rt: len(w.rt), tt: len(w.tt), otp: len(w.otp), rc: len(w.rc),
+	s := WorldSnap{in: w.In.Snapshot(), now: w.Now, t0: w.T0, at: time.Now(), ct: len(w.ct), rt: len(w.rt), tt: len(w.tt), otp: len(w.otp), rc: len(w.rc),
 		sc: len(w.sc), os: len(w.os), ts: len(w.ts), rm: len(w.rmHash), sec: len(w.Secrets),
 		smsTick: map[string]int{}, smsSeen: map[string]string{}}
 	for k, v := range w.smsTick {
@@ -617,6 +618,9 @@ func (w *World) Snapshot() WorldSnap {
 func (w *World) Restore(s WorldSnap) {
 	w.In.Restore(s.in)
 	w.Now = s.now
+	// the stored instants are absolute: make them as old as they were when the snapshot was taken
+	// (a long exploration below this point must not age the restored world)
+	w.In.AdvanceDur(-time.Since(s.at))
 	// the clock does not go back: if the TOTP period moved on since the snapshot, what it stored about
 	// last-used codes reads differently now, and the next step says so (pre-observation)
 	w.needPre = w.needPre || !s.t0.Equal(w.T0)
